@@ -74,7 +74,61 @@ func extractPanics(c *ctx) {
 		}
 		fmt.Fprintf(&b, "  (%q, %d)%s\n", s.Fn, s.Count, sep)
 	}
-	b.WriteString("]\n\nend GitBugModel.Gen.Panics\n")
+	b.WriteString("]\n\n")
+	// unchecked type assertions `x.(T)` (the one-result form, which panics when the dynamic type is another)
+	// in the files that decode what git holds: per file, the functions that contain one
+	assertFiles := []string{"entity/dag/operation_pack.go", "entity/dag/entity.go", "entity/dag/entity_actions.go", "entities/bug/operation.go",
+		"entities/identity/identity.go", "entities/identity/version.go", "entities/identity/key.go", "entities/identity/identity_actions.go"}
+	var asserts []string
+	for _, file := range assertFiles {
+		f, err := parser.ParseFile(fset, filepath.Join(c.repo, file), nil, 0)
+		if err != nil {
+			asserts = append(asserts, file+":unparsed")
+			continue
+		}
+		for _, d := range f.Decls {
+			fd, ok := d.(*ast.FuncDecl)
+			if !ok || fd.Body == nil {
+				continue
+			}
+			checked := map[*ast.TypeAssertExpr]bool{}
+			ast.Inspect(fd.Body, func(x ast.Node) bool {
+				switch n := x.(type) {
+				case *ast.AssignStmt: // v, ok := x.(T)
+					if len(n.Lhs) == 2 && len(n.Rhs) == 1 {
+						if ta, ok := n.Rhs[0].(*ast.TypeAssertExpr); ok {
+							checked[ta] = true
+						}
+					}
+				case *ast.ValueSpec:
+					if len(n.Names) == 2 && len(n.Values) == 1 {
+						if ta, ok := n.Values[0].(*ast.TypeAssertExpr); ok {
+							checked[ta] = true
+						}
+					}
+				case *ast.TypeSwitchStmt:
+					ast.Inspect(n.Assign, func(y ast.Node) bool {
+						if ta, ok := y.(*ast.TypeAssertExpr); ok {
+							checked[ta] = true
+						}
+						return true
+					})
+				}
+				return true
+			})
+			ast.Inspect(fd.Body, func(x ast.Node) bool {
+				if ta, ok := x.(*ast.TypeAssertExpr); ok && ta.Type != nil && !checked[ta] {
+					asserts = append(asserts, fmt.Sprintf("%s:%s:%s", file, fd.Name.Name, exprString(fset, ta)))
+				}
+				return true
+			})
+		}
+	}
+	sort.Strings(asserts)
+	b.WriteString("/-- unchecked type assertions (file:function:expression) in the files that decode what git holds -/\n")
+	fmt.Fprintf(&b, "def uncheckedAsserts : List String := %s\n", leanStrList(asserts))
+	b.WriteString("\nend GitBugModel.Gen.Panics\n")
 	c.writeLean("Panics.lean", b.String())
 	c.facts["read_path_panics"] = sites
+	c.facts["unchecked_asserts"] = asserts
 }
